@@ -81,6 +81,17 @@ func (p *parsing) parseSwitch(tok token, end tokenTyp) ast.Node {
 			panic(syntaxError(tok.pos, "use of .(type) outside type switch"))
 		}
 		expressions, tok = p.parseExprList(p.next(), true, false, true)
+		if isAssignmentToken(tok) {
+			// switch f(3); x := y.(type) {
+			// switch ; x := y.(type) {
+			assignment, tok = p.parseAssignment(expressions, tok, false, true, true)
+			ta, ok := assignment.Rhs[0].(*ast.TypeAssertion)
+			if !ok || ta.Type != nil || len(assignment.Lhs) != 1 {
+				panic(cannotUseAsValueError(tok.pos, assignment))
+			}
+			afterSemicolon = assignment
+			break
+		}
 		switch len(expressions) { // # of expressions after ;
 		case 0:
 			// switch ; {
